@@ -58,8 +58,12 @@ ASSUMPTIONS = ["node ids are Python ints of either sign (model: Z), written by s
                "is keyed by the NON-NEGATIVE nodes only: the name pattern (\\d+) cannot match a signed id, so a name on a "
                "negative id is outside the reading of 'well-formed instance'",
                "weights are finite Python floats (nan/inf excluded by the quantifier: 'any finite float value')",
-               "metadata values and alternative names are single-line (none of the 10 str.splitlines boundaries) and "
-               "str.strip() is the identity on them; the empty name is included",
+               "metadata values and alternative names contain no \\n / \\r and str.strip() is the identity on them; the empty "
+               "name is included.  In ~90 % of the cases they contain none of the 10 str.splitlines boundaries (the wf "
+               "predicate of the theorems: wf_field = no_break) and are checked through parse_file, get_parsed_instance AND "
+               "parse_str; in ~10 % a value has \\x0b \\x0c \\x1c \\x1d \\x1e \\x85 U+2028 U+2029 strictly inside: these lie "
+               "OUTSIDE the theorems' wf predicate and are correspondence-only, judged against the model's readlines path "
+               "(parse_file / get_parsed_instance; parse_str is not claimed for them)",
                "well-formed matching instance: num_edges = number of stored edges, alternatives_name keyed by the "
                "non-negative nodes, num_alternatives = number of nodes, data_type 'wmd', at least one edge"]
 TIMEOUT_S = 60.0
@@ -147,6 +151,26 @@ def rand_text(rng, allow_empty=True, maxlen=12):
         if s == s.strip() and not (set(s) & LINE_BOUNDARIES) and s:
             return s
     return "x"
+
+
+# the eight str.splitlines() boundaries that a file reader does NOT treat as line ends (universal newlines = \n, \r,
+# \r\n only).  Strictly inside a value they survive write -> parse_file; parse_str cannot handle them.
+INNER_BREAKS = ["\x0b", "\x0c", "\x1c", "\x1d", "\x1e", "\x85", chr(0x2028), chr(0x2029)]
+
+
+def rand_text_lb(rng):
+    """a value with one or two of INNER_BREAKS strictly inside (never at the ends: strip() would eat them)"""
+    a, b = rand_text(rng, allow_empty=False, maxlen=6), rand_text(rng, allow_empty=False, maxlen=6)
+    mid = rng.choice(INNER_BREAKS)
+    if rng.random() < 0.25:
+        mid = mid + rng.choice(["", " ", "x"]) + rng.choice(INNER_BREAKS)
+    return a + mid + b
+
+
+def has_inner_break(payload):
+    meta, _, alts = payload[0], payload[1], payload[2]
+    brk = {ord(ch) for ch in INNER_BREAKS}
+    return any(brk & set(t) for t in meta) or any(brk & set(nm) for _, nm in alts)
 
 
 # ------------------------------------------------------------------------------------------------ generation
@@ -282,8 +306,22 @@ def generate(tier, seed):
         if rng.random() < 0.5:
             rng.shuffle(named)
         alts = [(n, rand_text(rng) if rng.random() < 0.7 else "Alternative %d" % n) for n in named]
-        out.append(mk_case(default_meta(rng), rng.choice([0, len(nodes), rng.randint(0, 99)]), alts, ops, ops2, mode,
-                           rnd=1))
+        meta = default_meta(rng)
+        if i % 10 in (4, 7) or (i % 10 == 1 and tier != "quick"):     # line-boundary characters INSIDE values (parse_file only)
+            where = rng.random()
+            if where < 0.7 and alts:
+                for j in rng.sample(range(len(alts)), rng.randint(1, min(3, len(alts)))):
+                    alts[j] = (alts[j][0], rand_text_lb(rng))
+            if where >= 0.4 or not alts:
+                for j in rng.sample([0, 1, 2, 4, 5, 6, 7, 8], rng.randint(1, 3)):
+                    meta[j] = rand_text_lb(rng)
+        out.append(mk_case(meta, rng.choice([0, len(nodes), rng.randint(0, 99)]), alts, ops, ops2, mode, rnd=1))
+    for j, ch in enumerate(INNER_BREAKS):
+        meta = default_meta()
+        if j % 2:
+            meta[1] = "Ward" + ch + "4"
+        out.append(mk_case(meta, 0, [(1, "St Mary" + ch + "(annex)"), (2, "b")],
+                           [[1, 1, 2, bits_of_f(0.5)], [1, 2, 1, bits_of_f(-1e16)]], mode=j % 2, lb=1))
     out.extend(fidelity_cases(rng, 150 if tier == "quick" else 1500))
     # ---- small history cases: every edge of a small graph overwritten after the first write
     for k in (1, 2, 3):
@@ -486,6 +524,12 @@ def _parse_file(path, **kw):
     return observe(inst), inst
 
 
+def _get_parsed(path, **kw):
+    from preflibtools.instances import get_parsed_instance
+    inst = get_parsed_instance(path, **kw)
+    return observe(inst), inst
+
+
 def _parse_str(s, **kw):
     from preflibtools.instances import MatchingInstance
     inst = MatchingInstance()
@@ -539,6 +583,7 @@ def impl(c):
         res["before_after_write"] = observe(inst)
         # (b) re-read through both entry points
         res["file"], inst2 = _guard_obs(_parse_file, p1)
+        res["get"], _ = _guard_obs(_get_parsed, p1)
         res["str"], _ = _guard_obs(_parse_str, text1)
         # (c) second file
         if inst2 is not None:
@@ -706,8 +751,13 @@ def judge(c, r, mres):
         bad = same_as_original(r["history"]["parsed"], r["history"]["first"], "history: parse_file(file A)")
         if bad:
             return bad
-    # (b) implementation round trip, both entry points
-    for key, what in (("file", "(b) parse_file(write(i))"), ("str", "(b) parse_str(write(i))")):
+    # values with a non-\n line boundary inside: the file path only (str.splitlines would cut the value)
+    file_only = has_inner_break(c["payload"])
+    # (b) implementation round trip, the file entry points and parse_str
+    for key, what in (("file", "(b) parse_file(write(i))"), ("get", "(b) get_parsed_instance(write(i))"),
+                      ("str", "(b) parse_str(write(i))")):
+        if file_only and key == "str":
+            continue
         if "err" in r[key]:
             return {"kind": "exception", "reason": "%s raised %r" % (what, r[key]["err"])}
         bad = same_as_original(r[key]["ok"], b, what)
@@ -720,6 +770,8 @@ def judge(c, r, mres):
     m_read, m_split, m_hdr, m_rt = mres[:4]
     for m, what in ((m_read, "(a) model-parse(readlines(impl.write(i)))"),
                     (m_split, "(a) model-parse(splitlines(impl.write(i)))")):
+        if file_only and m is m_split:
+            continue
         if m[0] != 0:
             return "%s fails with error code %r" % (what, m[1])
         bad = model_same_as_original(model_content(m[1]), b, what)
@@ -730,6 +782,8 @@ def judge(c, r, mres):
     if not (isinstance(mw, list) and mw[0] == 0):
         return "model-write(i) fails: %r" % (mw,)
     for key, what in (("d_file", "(d) parse_file(model-write(i))"), ("d_str", "(d) parse_str(model-write(i))")):
+        if file_only and key == "d_str":
+            continue
         if "err" in r[key]:
             return {"kind": "exception", "reason": "%s raised %r" % (what, r[key]["err"])}
         bad = same_as_original(r[key]["ok"], b, what)
@@ -748,6 +802,8 @@ def judge(c, r, mres):
         return "model: second file differs from the first (C09_idempotent)"
     # (g) header_only
     for key, what in (("hdr_file", "(g) parse_file(header_only)"), ("hdr_str", "(g) parse_str(header_only)")):
+        if file_only and key == "hdr_str":
+            continue
         if "err" in r[key]:
             return {"kind": "exception", "reason": "%s raised %r" % (what, r[key]["err"])}
         h = r[key]["ok"]
@@ -826,6 +882,8 @@ def stats(c, r, m):
         labels.append("equal weights")
     if any(nm == "" for _, nm in b["names"]):
         labels.append("empty name")
+    if has_inner_break(c["payload"]):
+        labels.append("line-boundary character (not \\n, \\r) inside a name / metadata value: parse_file path only")
     reprs = [repr(w) for w in ws]
     if any("e+" in t for t in reprs):
         labels.append("weight repr with e+")
